@@ -130,6 +130,16 @@ def run(ctx):
         if T.size(t) > 200:
             continue
         t = norm_for_parse(inject(rng, t, var))
+        if rng.random() < 0.08:
+            # a nested lambda whose own variable shares the LAST name segment with `var`
+            # (ns.x inside the body made relative to x): a different identifier, no shadowing
+            ns = rng.choice([("ns",), ("m",), ("my", "pkg")])
+            nv = ".".join(ns + (var,))
+            inner = ("cmp", "eq", ("attr", ("id", var, ns), "text"), ("attr", T.ident(var), "title"))
+            lam = ("lam", ("attr", T.ident(var), "comments") if rng.random() < 0.5 else T.ident("items"),
+                   rng.choice(["any", "all"]), nv, inner)
+            t = ("bool", rng.choice(["and", "or"]), t, lam) if rng.random() < 0.7 else lam
+            ctx.cls("nested-lambda-var-homonym")
         if rng.random() < 0.3:
             # the variable spelled like something that plays ANOTHER role in the same body:
             # a called function, a path segment, a named-parameter name
@@ -161,7 +171,10 @@ def run(ctx):
                 ("-x/a add x/b/c mul 2 gt 0", "x"), ("a eq 1", "x"),
                 ("year(year/published_at) eq 2020", "year"), ("length(length/name) eq 5", "length"),
                 ("contains(name/first, 'a') and a/name eq name/last", "name"),
-                ("my.f(k=k/a)", "k"), ("ns.f(f/a)", "f"), ("date(d/date) eq date/d", "date")]
+                ("my.f(k=k/a)", "k"), ("ns.f(f/a)", "f"), ("date(d/date) eq date/d", "date"),
+                ("x/comments/any(ns.x: ns.x/text eq x/title)", "x"),
+                ("items/any(m.x: m.x/a gt x/b and x/c in (m.x/d, 1))", "x"),
+                ("x/a/any(x1: x1/b/any(ns.x: ns.x/c eq x/d and x1/e eq x/f))", "x")]
     if ctx.shard == 0:
         for text, var in directed:
             t = drive.parse_term(text)[1]
